@@ -675,6 +675,17 @@ func c07Cases() []c07Case {
 			}
 		}
 	}
+	// single-statement faults: ONE statement of a page fetch fails once (every statement in turn). 150 rows with
+	// 300 distinct names fetched as one page: the reverse lookup of the names then spans several lookup pages, so
+	// a failure of a lookup page that is not the last one is among the positions. (Ops[0] = 0: the first page;
+	// Ops[1] = the failing statement, 0 = discovered at run time from the fault-free fetch)
+	for _, kind := range []string{"generic", "context-canceled"} {
+		for _, tr := range trs {
+			for k := 1; k <= 8; k++ {
+				out = append(out, c07Case{Family: "faults", Transport: tr, S: 150, M: 150, Shape: 0, Ops: []int{0, k}, TokenKind: kind})
+			}
+		}
+	}
 	// faults: every statement issued while fetching page #Ops[0] fails with the given kind of error
 	for _, kind := range []string{"generic", "sqlite-locked", "sqlite-busy", "context-canceled"} {
 		for _, ps := range []int{1, 2} {
@@ -719,7 +730,15 @@ func (r *c07Run) runFault(s *apih.Server, cs c07Case) {
 		if page == cs.Ops[0] {
 			ff, ec0, _ := c07Fetch(c, cs.Transport, q, cs.S, token) // fault-free answer for this token
 			hit := 0
-			s.Tap.SetBefore(func(*sqlfault.Event) error { hit++; return injected })
+			nth := 0
+			s.Tap.SetBefore(func(*sqlfault.Event) error {
+				nth++
+				if len(cs.Ops) > 1 && nth != cs.Ops[1] {
+					return nil // single-statement mode: only statement Ops[1] fails, once
+				}
+				hit++
+				return injected
+			})
 			fp, ec, desc := c07Fetch(c, cs.Transport, q, cs.S, token)
 			s.Tap.SetBefore(nil)
 			s.Settle()
